@@ -122,7 +122,8 @@ long long tick_ns();           // length of one tick of simulated time in this r
 
 void point(int kind, long obj = 0);            // decision point (may switch task)
 void event(int kind, long obj = 0, long a = 0);  // observable event (fingerprint + trace), no switch
-void note(const std::string &s);               // trace only (no effect on fingerprint)
+void note(const std::string &s);
+size_t tls_block_size();  // bytes of the executable's static TLS block that every task gets its own copy of               // trace only (no effect on fingerprint)
 [[noreturn]] void abort_run(const std::string &cls, const std::string &detail);
 
 // phases for the abstract-state reach measure
